@@ -46,6 +46,17 @@ static unsigned char g_app_buf[16]; /* the first 16 appended bytes (unit jsonsca
 #include "lowered.c"
 #endif
 typedef struct JsonDeserializer_StubReader JD;
+/* Native build (replay of counterexamples, covalidation of cover witnesses): the REAL StringBuilder, parseHex4, unescapeChar,
+ * encodeCodepoint, parseNumber and VariantData setters run instead of the contract stubs below, so ghost state that only the
+ * stubs maintain is not meaningful there.  STUB_CHECK: a postcondition stated over such ghost state, compiled in the CBMC
+ * build only.  BUILDER_VALID(d): the builder's validity -- the ghost in the CBMC build, the real builder's node_ natively. */
+#ifdef VERIF_NATIVE
+#define STUB_CHECK(c, name) ((void)0)
+#define BUILDER_VALID(d) ((d)->stringBuilder_.node_ != 0)
+#else
+#define STUB_CHECK(c, name) CHECK(c, name)
+#define BUILDER_VALID(d) g_builder_valid
+#endif
 
 int StubReader__read(struct StubReader *self) {
   (void)self;
@@ -305,7 +316,7 @@ void h_parseQuoted(void) {
   JD *d = mk_state(0);
   __CPROVER_assume(d->latch_.loaded_ && (d->latch_.current_ == '"' || d->latch_.current_ == '\''));
   char q = d->latch_.current_;
-  _Bool valid0 = g_builder_valid;
+  _Bool valid0 = BUILDER_VALID(d);
 #ifdef BOUND_READS
   for (unsigned i = 0; i < 8; i++) g_log[i] = 0;
 #endif
@@ -326,12 +337,12 @@ void h_parseQuoted(void) {
   CHECK(err != Ok || (!LATCHED(d) && g_last == (unsigned char)q), "C16/C10: Ok => the closing quote is the last byte consumed");
   CHECK(err != IncompleteInput || g_ended, "IncompleteInput only at the end of the input");
   /* C05: the builder may be invalid from the start (startString failed) or become invalid at any append */
-  CHECK(err != Ok || g_builder_valid, "C05: Ok only if the builder is valid at the end (an invalid builder gives NoMemory whatever the string, the empty string included)");
-  CHECK(err != NoMemory || !g_builder_valid, "C05/C10: NoMemory only if the builder is invalid");
+  CHECK(err != Ok || BUILDER_VALID(d), "C05: Ok only if the builder is valid at the end (an invalid builder gives NoMemory whatever the string, the empty string included)");
+  CHECK(err != NoMemory || !BUILDER_VALID(d), "C05/C10: NoMemory only if the builder is invalid");
   /* C10: every byte other than the closing quote, the backslash and NUL is a legal string byte */
-  CHECK(err != InvalidInput || g_hex_invalid || g_unesc_zero, "C10/C01: InvalidInput only from the hex digits of \\u or from a byte behind a backslash that is no escape -- never for a plain byte (0x01-0x1F, 0x80-0xFF are legal)");
-  CHECK(!(g_hex_invalid || g_unesc_zero) || err == InvalidInput, "C10: a wrong escape is InvalidInput");
-  CHECK(!g_unesc_pending, "C01: the translation of an escape is appended");
+  STUB_CHECK(err != InvalidInput || g_hex_invalid || g_unesc_zero, "C10/C01: InvalidInput only from the hex digits of \\u or from a byte behind a backslash that is no escape -- never for a plain byte (0x01-0x1F, 0x80-0xFF are legal)");
+  STUB_CHECK(!(g_hex_invalid || g_unesc_zero) || err == InvalidInput, "C10: a wrong escape is InvalidInput");
+  STUB_CHECK(!g_unesc_pending, "C01: the translation of an escape is appended");
 #ifdef CFG_nouni
   /* ARDUINOJSON_DECODE_UNICODE=0: \uXXXX is not decoded; the documented behaviour is that the escape is left as it is.
    * Byte accounting over strings of every length (loop invariant of jsonscan_nouni.loops.json): between the quotes every
@@ -340,9 +351,9 @@ void h_parseQuoted(void) {
   COVER((err == Ok || err == NoMemory) && g_u_kept);
   COVER(err == Ok && g_esc_n > 0 && g_u_kept);
 #ifdef CANARY_PARSEQUOTED
-  CHECK((err != Ok && err != NoMemory) || g_app_n + g_esc_n + 1 + (g_u_kept && g_app_n == 6) == g_reads, "DECODE_UNICODE=0: every byte between the quotes is appended once (a two-character escape gives one byte, \\u is kept verbatim)");
+  STUB_CHECK((err != Ok && err != NoMemory) || g_app_n + g_esc_n + 1 + (g_u_kept && g_app_n == 6) == g_reads, "DECODE_UNICODE=0: every byte between the quotes is appended once (a two-character escape gives one byte, \\u is kept verbatim)");
 #else
-  CHECK((err != Ok && err != NoMemory) || g_app_n + g_esc_n + 1 == g_reads, "DECODE_UNICODE=0: every byte between the quotes is appended once (a two-character escape gives one byte, \\u is kept verbatim)");
+  STUB_CHECK((err != Ok && err != NoMemory) || g_app_n + g_esc_n + 1 == g_reads, "DECODE_UNICODE=0: every byte between the quotes is appended once (a two-character escape gives one byte, \\u is kept verbatim)");
 #endif
 #else
   /* byte accounting over strings of every length (loop invariant): of the bytes the routine fetched itself, each is appended
@@ -350,9 +361,9 @@ void h_parseQuoted(void) {
    * the closing quote is not appended.  Nothing is dropped, nothing is doubled. */
   COVER(err == Ok && g_u_n > 0 && g_esc_n > 0);
 #ifdef CANARY_PARSEQUOTED
-  CHECK(err != Ok || g_acc + 1u + (g_app_n == 1) == g_reads, "C01: every plain byte between the quotes is appended exactly once (a two-character escape gives one byte, backslash-u the bytes of encodeCodepoint)");
+  STUB_CHECK(err != Ok || g_acc + 1u + (g_app_n == 1) == g_reads, "C01: every plain byte between the quotes is appended exactly once (a two-character escape gives one byte, backslash-u the bytes of encodeCodepoint)");
 #else
-  CHECK(err != Ok || g_acc + 1u == g_reads, "C01: every plain byte between the quotes is appended exactly once (a two-character escape gives one byte, backslash-u the bytes of encodeCodepoint)");
+  STUB_CHECK(err != Ok || g_acc + 1u == g_reads, "C01: every plain byte between the quotes is appended exactly once (a two-character escape gives one byte, backslash-u the bytes of encodeCodepoint)");
 #endif
 #endif
 }
@@ -425,7 +436,7 @@ void h_parseNonQuoted(void) {
   JD *d = mk_state(3);
   _Bool first_ok = d->latch_.loaded_ && IS_IDENT(d->latch_.current_) && d->latch_.current_ > 0;
   __CPROVER_assume(d->latch_.loaded_); /* parseKey looked at the first byte */
-  _Bool valid0 = g_builder_valid;
+  _Bool valid0 = BUILDER_VALID(d);
   unsigned err = JsonDeserializer_StubReader__parseNonQuotedString(d);
   settle(d);
   COVER(err == Ok); COVER(err == InvalidInput); COVER(err == NoMemory);
@@ -434,12 +445,12 @@ void h_parseNonQuoted(void) {
   CHECK(SAFE(d) && (LATCHED(d) || err == NoMemory), "C03/C16: one look-ahead byte stays in the latch, SAFE");
   CHECK(!g_bad_consumed, "only identifier bytes are consumed");
   CHECK((err == InvalidInput) == !first_ok, "C10: an empty unquoted key is InvalidInput, otherwise not");
-  CHECK(err == InvalidInput || g_app_n == g_reads || (err == NoMemory && !LATCHED(d) && g_app_n == g_reads + 1), "C01: every consumed byte is appended to the key (one append per byte)");
+  STUB_CHECK(err == InvalidInput || g_app_n == g_reads || (err == NoMemory && !LATCHED(d) && g_app_n == g_reads + 1), "C01: every consumed byte is appended to the key (one append per byte)");
   COVER(err == NoMemory && !valid0); COVER(err == NoMemory && valid0);
-  CHECK(err != Ok || g_builder_valid, "C05: Ok only if the builder is valid at the end (it may be invalid from the start or fail at any append)");
-  CHECK(err != NoMemory || !g_builder_valid, "C05/C10: NoMemory only if the builder is invalid");
+  CHECK(err != Ok || BUILDER_VALID(d), "C05: Ok only if the builder is valid at the end (it may be invalid from the start or fail at any append)");
+  CHECK(err != NoMemory || !BUILDER_VALID(d), "C05/C10: NoMemory only if the builder is invalid");
 #ifdef CANARY_PARSENONQUOTED
-  CHECK(!(err == Ok && g_app_n == 2), "canary: deliberately false for a reachable case");
+  STUB_CHECK(!(err == Ok && g_app_n == 2), "canary: deliberately false for a reachable case");
 #endif
 }
 
@@ -501,27 +512,28 @@ void h_parseNumeric(void) {
   CHECK(err == Ok || err == InvalidInput || err == NoMemory, "parseNumericValue return codes");
   CHECK(SAFE(d) && LATCHED(d), "C03/C16: exactly one look-ahead byte; SAFE");
   CHECK(!g_bad_consumed, D_NUM_CONSUMED);
-  CHECK(g_pn_arg == d->buffer_, "the text handed to parseNumber is the deserializer's own 64-byte buffer");
+  STUB_CHECK(g_pn_arg == d->buffer_, "the text handed to parseNumber is the deserializer's own 64-byte buffer");
   unsigned n = g_reads + (first_loaded ? 1 : 0) - 1; /* bytes consumed: everything delivered except the look-ahead */
   CHECK(n <= 63, "C03: at most 63 characters are buffered");
   CHECK(d->buffer_[n <= 63 ? n : 63] == 0, "C03/C01: the NUL terminator sits right after the consumed characters, inside buffer_[64]");
   CHECK(n == 63 || !NUM_MUST_CONSUME(d->latch_.current_), D_NUM_STOP63);
-  /* result mapping: the Number's value reaches the variant setter unchanged (C01) */
+  /* result mapping: the Number's value reaches the variant setter unchanged (C01); observed through the parseNumber / setter
+   * stubs, hence CBMC build only (natively the real parseNumber and setters run) */
   unsigned t = g_number.type_;
 #ifdef CFG_nodbl
   /* ARDUINOJSON_USE_DOUBLE=0: Number has the kinds Float, SignedInteger, UnsignedInteger only; a tag of 4 is no kind */
   COVER(t == 4 && err == InvalidInput); COVER(t == 1 && g_set_kind == 3 && err == Ok);
 #ifdef CANARY_PARSENUMERIC
-  CHECK((t >= 1 && t <= 4) == (err != InvalidInput), "Invalid iff parseNumber says so (USE_DOUBLE=0: kinds 1..3)");
+  STUB_CHECK((t >= 1 && t <= 4) == (err != InvalidInput), "Invalid iff parseNumber says so (USE_DOUBLE=0: kinds 1..3)");
 #else
-  CHECK((t >= 1 && t <= 3) == (err != InvalidInput), "Invalid iff parseNumber says so (USE_DOUBLE=0: kinds 1..3)");
+  STUB_CHECK((t >= 1 && t <= 3) == (err != InvalidInput), "Invalid iff parseNumber says so (USE_DOUBLE=0: kinds 1..3)");
 #endif
 #else
-  CHECK((t >= 1 && t <= 4) == (err != InvalidInput), "Invalid iff parseNumber says so");
+  STUB_CHECK((t >= 1 && t <= 4) == (err != InvalidInput), "Invalid iff parseNumber says so");
 #endif
-  CHECK(err == InvalidInput || (g_set_kind == (t == 3 ? 1 : t == 2 ? 2 : t == 1 ? 3 : 4)), "number type selects the matching setter");
-  CHECK(err == InvalidInput || g_set_bits == (t == 1 ? (uint64_t)(uint32_t)g_number.value_.asUnsignedInteger : g_number.value_.asUnsignedInteger), "value bits reach the setter unchanged");
-  CHECK(err == InvalidInput || (err == NoMemory) == !g_set_ok, "C05: NoMemory iff the store failed");
+  STUB_CHECK(err == InvalidInput || (g_set_kind == (t == 3 ? 1 : t == 2 ? 2 : t == 1 ? 3 : 4)), "number type selects the matching setter");
+  STUB_CHECK(err == InvalidInput || g_set_bits == (t == 1 ? (uint64_t)(uint32_t)g_number.value_.asUnsignedInteger : g_number.value_.asUnsignedInteger), "value bits reach the setter unchanged");
+  STUB_CHECK(err == InvalidInput || (err == NoMemory) == !g_set_ok, "C05: NoMemory iff the store failed");
   (void)first;
 #if defined(CANARY_PARSENUMERIC) && !defined(CANARY_NUM_LETTERS) && !defined(CFG_nodbl)
   CHECK(!(err == Ok && g_reads == 3), "canary: deliberately false for a reachable case");
